@@ -34,6 +34,7 @@ type Prog struct {
 	freshPtr   map[string]int // immutable globals initialised with a fresh allocation: distinct concrete refs
 	loadErrs   []string
 	fnByName   map[string]*ssa.Function
+	usedLemmas map[string]bool
 }
 
 func loadProg(repoDir string, patterns []string, tags string) (*Prog, error) {
